@@ -643,7 +643,9 @@ impl B {
 /// four definitions with names unique to slot k: fn, let, fn, let with random visibility
 /// (the first is always pub so that whole-module imports grant something)
 fn defs_for(rng: &mut Rng, k: u32) -> Vec<Def> {
-    let base = 30 + 4 * k;
+    // identifier spaces stay disjoint: stems 10-19 / 100+, directories 20-26, definitions 30-69 / 200+,
+    // aliases 70-79, structured manifest names / links 80-95, odd ones 96-99, generated manifest names 300+, links 399+
+    let base = if k < 10 { 30 + 4 * k } else { 200 + 4 * k };
     let n = 2 + rng.below(3) as u32;
     (0..n).map(|j| Def { name: base + j, is_pub: j == 0 || rng.chance(1, 2) }).collect()
 }
@@ -866,6 +868,20 @@ fn structured(rng: &mut Rng, out: &mut Vec<Case>) {
         }
         out.push(b.done(&format!("outside-root{}", variant)));
     }
+    // a file and a directory with the same name: n20.aelys and n20/n10.aelys
+    {
+        let mut b = B::new();
+        let d1 = defs_for(rng, 0);
+        let d2 = defs_for(rng, 1);
+        let f = b.file(vec![20], d1.clone());
+        b.file(vec![20, 10], d2.clone());
+        let f1 = rand_form(rng, &d1, 70, true);
+        let f2 = rand_form(rng, &d2, 71, true);
+        b.imp(0, vec![20], f1);
+        b.imp(0, vec![20, 10], f2);
+        b.imp(f, vec![20, 10], Form::Alias(72));
+        out.push(b.done("file-and-dir-same-name"));
+    }
     // directory module: pkg/mod.aelys importing pkg/helper.aelys
     {
         let mut b = B::new();
@@ -983,15 +999,15 @@ impl B {
 
 /// random tree.  flavour: 0 flat acyclic-ish, 1 flat with back edges, 2 nested with repeated names,
 /// 3 shared definition names, 4 malformed (missing modules, bad symbols, path-symbol imports)
-fn random_case(rng: &mut Rng, n: usize) -> Case {
+fn random_case(rng: &mut Rng, n: usize, maxfiles: u64) -> Case {
     let flavour = match rng.below(20) {
-        0..=7 => 0,
-        8..=10 => 1,
-        11..=14 => 2,
+        0..=6 => 0,
+        7..=9 => 1,
+        10..=14 => 2,
         15..=16 => 3,
         _ => 4,
     };
-    let nfiles = 2 + rng.below(6) as usize;
+    let nfiles = 2 + rng.below(maxfiles.saturating_sub(2).max(1)) as usize;
     let respell = flavour != 4 && rng.chance(1, 4);
     let mut b = B::new();
     // directories
@@ -1005,9 +1021,11 @@ fn random_case(rng: &mut Rng, n: usize) -> Case {
     let mut used: BTreeSet<Vec<Id>> = BTreeSet::new();
     used.insert(vec![ENTRY]);
     for k in 0..nfiles {
-        let dir = rng.pick(&dirs).clone();
+        // nested trees keep some files next to the entry (they are what nested modules reach through
+        // the second lookup place)
+        let dir = if flavour == 2 && k < 2 { Vec::new() } else { rng.pick(&dirs).clone() };
         // few stems in nested trees so that names repeat across directories
-        let stem = if flavour == 2 { 10 + rng.below(3) as Id } else { 10 + k as Id };
+        let stem = if flavour == 2 && k < 2 { 13 + k as Id } else if flavour == 2 { 10 + rng.below(3) as Id } else if k < 10 { 10 + k as Id } else { 100 + k as Id };
         let mut p = dir.clone();
         p.push(stem);
         if flavour == 2 && rng.chance(1, 8) {
@@ -1057,7 +1075,7 @@ fn random_case(rng: &mut Rng, n: usize) -> Case {
             if flavour == 2 && j <= i && !rng.chance(1, 4) {
                 continue;
             }
-            if flavour == 2 && !idir.is_empty() && rng.chance(1, 4) {
+            if flavour == 2 && !idir.is_empty() && rng.chance(1, 2) {
                 // a file next to the entry, written as seen from the entry's directory
                 let roots: Vec<usize> = (1..nf).filter(|&x| b.files[x].0.len() == 1 && x != i).collect();
                 if !roots.is_empty() {
@@ -1102,11 +1120,32 @@ fn random_case(rng: &mut Rng, n: usize) -> Case {
             b.imp(i, vec![STD, rng.below(4) as Id], Form::Alias(76 + rng.below(2) as Id));
         }
     }
+    if flavour == 2 && rng.chance(1, 3) {
+        // a symlink inside a module's directory to a file outside it: not importable from there
+        let nested: Vec<usize> = (1..nf).filter(|&x| b.files[x].0.len() > 1 && b.files[x].0.last() != Some(&MODSEG)).collect();
+        let roots: Vec<usize> = (1..nf).filter(|&x| b.files[x].0.len() == 1).collect();
+        if !nested.is_empty() && !roots.is_empty() {
+            let i = *rng.pick(&nested);
+            let tgt = b.files[*rng.pick(&roots)].0.clone();
+            let mut src: Vec<Id> = b.files[i].0[..b.files[i].0.len() - 1].to_vec();
+            src.push(399);
+            b.links.push((src, tgt));
+            b.imp(i, vec![399], Form::Alias(79));
+        }
+    }
+    if respell && rng.chance(1, 4) {
+        // a manifest path to a file that does not exist, for a module that does: the search takes over
+        let singles: Vec<Vec<Id>> = b.files.iter().skip(1).filter(|(p, _)| p.len() == 1).map(|(p, _)| p.clone()).collect();
+        if !singles.is_empty() {
+            let name = rng.pick(&singles).clone();
+            b.hints.push((name, vec![PSeg::Cur, PSeg::Seg(97)]));
+        }
+    }
     if respell {
         // give some imports another spelling of the same file: a symlink to the file, a symlinked
         // directory on the way, or an explicit manifest path
-        let mut next_link: Id = 85;
-        let mut next_hint: Id = 80;
+        let mut next_link: Id = 400;
+        let mut next_hint: Id = 300;
         for i in 0..nf {
             let idir: Vec<Id> = b.files[i].0[..b.files[i].0.len() - 1].to_vec();
             for k in 0..b.files[i].1.imports.len() {
@@ -1304,6 +1343,7 @@ fn main() {
     let seed = arg_u64("--seed", 0);
     let nrandom = arg_u64("--gen", 0) as usize;
     let maxp = arg_u64("--probes", 14) as usize;
+    let maxfiles = arg_u64("--maxfiles", 8);
     let mut cases: Vec<Case> = Vec::new();
     if let Some(f) = arg("--file") {
         let text = std::fs::read_to_string(&f).expect("read corpus file");
@@ -1330,19 +1370,36 @@ fn main() {
         let mut rng = Rng::new(seed);
         let mut st = Vec::new();
         structured(&mut rng, &mut st);
+        let deep = arg_u64("--deep", 0) as u32;
+        if deep > 0 {
+            // a chain and a cycle behind a chain this deep: recursion depth of the real loader
+            for cyc in 0..2 {
+                let mut b = B::new();
+                let mut prev = 0usize;
+                for k in 0..deep {
+                    let idx = b.file(vec![1000 + k], vec![Def { name: 30 + 2 * (k % 10), is_pub: true }]);
+                    b.imp(prev, vec![1000 + k], if k % 3 == 0 { Form::Alias(70) } else { Form::Module });
+                    prev = idx;
+                }
+                if cyc == 1 {
+                    b.imp(prev, vec![1000 + deep / 2], Form::Alias(71));
+                }
+                st.push(b.done(&format!("deep{}-{}", deep, cyc)));
+            }
+        }
         for mut c in st {
             auto_probes(&mut c, &mut rng, maxp.max(24));
             cases.push(c);
         }
         for n in 0..nrandom {
-            let mut c = random_case(&mut rng, n);
+            let mut c = random_case(&mut rng, n, maxfiles);
             c.opt = (n % 4) as u32;
             auto_probes(&mut c, &mut rng, maxp);
             cases.push(c);
         }
         let nsessions = arg_u64("--sessions", (nrandom / 6) as u64) as usize;
         for n in 0..nsessions {
-            let c = random_case(&mut rng, 100_000 + n);
+            let c = random_case(&mut rng, 100_000 + n, maxfiles);
             if c.label.ends_with("f4") || c.files[0].1.imports.is_empty() {
                 continue;
             }
